@@ -33,13 +33,13 @@ func init() {
 	register(&Property{
 		ID:    "C05",
 		Level: "other",
-		Explanation: "Decided exactly by abstract evaluation into BDDs (no execution): subnetFromReversedV4 / subnetFromReversedV6 accept exactly k <= 4 octet labels resp. k <= 32 nibble labels in front of the suffix, for every name length, and return the prefix of the grammar; indexFirstV4Label / indexFirstV6Label return the start of the longest label-aligned run of address labels; isIPv4Label is the octet predicate. Structural and arithmetic conditions for the dispatcher and the extractor, and as fall-back: (R1) ASCII-only folding before the suffix tests (as C04.R1) in PrefixFromReversedAddr and " +
+		Explanation: "Decided exactly by abstract evaluation into BDDs (no execution): subnetFromReversedV4 / subnetFromReversedV6 accept exactly k <= 4 octet labels resp. k <= 32 nibble labels in front of the suffix, for every name length, and return the prefix of the grammar; indexFirstV4Label / indexFirstV6Label return the start of the longest label-aligned run of address labels; isIPv4Label is the octet predicate; and the two entry points as a whole: for names of every length up to 22 and of 25, 28..30, 72, 73 symbolic bytes (every length up to 78 resp. 44 in the thorough tier), with ValidateDomainName as an uninterpreted predicate V of the dot-trimmed name, PrefixFromReversedAddr succeeds <=> V and the lowered name is k <= 4 octet labels + in-addr.arpa or k <= 32 hex labels + ip6.arpa, ExtractReversedAddr succeeds <=> V and some label-aligned suffix is such a name, and the prefix returned (family, length, every byte) is that of the (longest such) name. Structural and arithmetic conditions as fall-back: (R1) ASCII-only folding before the suffix tests (as C04.R1) in PrefixFromReversedAddr and " +
 			"ExtractReversedAddr; (R2) label alignment: at the point where ExtractReversedAddr cuts the embedded name, every abstract state of the relational interpreter entails that the domain is exactly " +
 			"the root suffix or has a '.' right before it (byte fact), and the right-to-left label scanners test the byte before each candidate label; (R3) no leading zero is accepted: at the store of an " +
 			"octet every abstract state entails len(label) == 1 or label[0] != '0'; the octet parser's bit size matches the byte conversion; (R4) arithmetic skeleton: prefix length 8*l resp. 4*l with l " +
 			"incremented once per consumed label, the address is a zeroed local written only at ip[l] resp. ip[l/2] (high nibble for even l), more than 3 dots / more than 71 bytes are rejected before the " +
-			"partial decoders run. Not decided: the exact accepted language of the label scanners (value level).",
-		Technique: "exact abstract evaluation of go/ssa into ROBDDs (both prefix decoders for every name length, both index scanners, the octet predicate, compared with the grammar as Boolean functions of the name bytes) + abstract interpretation with byte facts (asserted obligations) and SSA provenance rules for the dispatcher and the extractor; structural skeleton rules as fall-back",
+			"partial decoders run. Not decided: the extractor on names longer than the evaluated lengths as a whole (its scanners and decoders are decided separately there); what ValidateDomainName accepts (C03).",
+		Technique: "exact abstract evaluation of go/ssa into ROBDDs (both prefix decoders for every name length, both index scanners, the octet predicate, and both entry points whole with the domain validator uninterpreted, compared with the grammar as Boolean functions of the name bytes); abstract interpretation with byte facts (asserted obligations), SSA provenance and skeleton rules as fall-back",
 		Note:      "Trusted: go/ssa, /verif/sa/lincon, strconv.ParseUint, strings.LastIndexByte/Count.",
 		DesignRef: "DESIGN.md section 4, C05",
 		Run:       runC05,
@@ -457,6 +457,8 @@ func runC04(c *Ctx) {
 	// ---- the round trip and the accepted language, end to end ----
 	c04RoundTripExact(c)
 	// ---- R4 encoder ----
+	c.L.Floor("C04.no-retained-argument", 1)
+	c04NoRetainedArgument(c, c.fn("netutil", "IPToReversedAddr"))
 	if f := c.fn("netutil", "IPToReversedAddr"); f != nil && c04EncoderExact(c, f) {
 		// decided exactly (c04enc.go); the structural rules below are the
 		// fall-back for an encoder outside the evaluator's grammar
